@@ -243,6 +243,8 @@ def judge(events, outs):
             if ca != cb:
                 V.append(_v("C05", f"C05/{fl}/pair/{alt}/outcome-differs:{ca}|{cb}", ev, out.get("history")))
             elif ca == "returned":
+                if out.get("n_missing"):
+                    V.append(_v("C05", f"C05/{fl}/pair/{alt}/prediction-missing", ev, {"n": out["n_missing"], **out.get("history", {})}))
                 if out.get("n_differ"):
                     V.append(_v("C05", f"C05/{fl}/pair/{alt}/predicted-differs:{how}", ev,
                                 {"n": out["n_differ"], "max_abs_diff": out["max_abs_diff"], **out.get("history", {})}))
